@@ -19,7 +19,11 @@
  *                             order = the task bodies in execution order (from their own printf output).
  *   redcol d nt M N / redrow d nt N    the generated reduce_col.jdf / reduce_row.jdf taskpools, called with
  *                             explicit (IA, JA, M, N) on a 2^d x nt tile matrix (1 rank):
- *                               redcol d nt M N => tasks=<level.index:count,..> reads=<r.c:count,..> dest=<c:count,..> oob=<k>
+ *                               redcol d nt M N => tasks=<level.index:count,..> reads=<r.c:count,..> dest=<c:count,..> ops=<k>
+ *                             (ops = invocations of the `operation` given to the taskpool)
+ *   maphang mt nt P Q         like map, for shapes that leave a rank without any local tile: a watchdog thread
+ *                             reports `maphang .. => stuck nb_tasks=<a> pending=<b> invocations=<c>` after W seconds
+ *                             without completion and ends the process (exit 42); `=> completed` otherwise.
  *   wrapper col|row mt nt     parsec_reduce_col_New / parsec_reduce_row_New exactly as exported, on a plain
  *                             block-cyclic matrix (expected to crash: run in a process of its own);
  *                             prints `wrapper .. => completed` if it survives.
@@ -176,7 +180,21 @@ static int map_op(struct parsec_execution_stream_s *es, const void *src, void *d
     return 0;
 }
 
-static void do_map(int mt, int nt, int P, int Q)
+static volatile int wd_armed, wd_secs = 20;
+static parsec_taskpool_t *wd_tp; static char wd_desc[128];
+static void *watchdog(void *arg)
+{
+    (void)arg;
+    for(int i = 0; i < wd_secs * 10 && wd_armed; i++) usleep(100000);
+    if( wd_armed ) {
+        fprintf(out, "%s => stuck nb_tasks=%d pending=%d invocations=%d\n", wd_desc, (int)wd_tp->nb_tasks, (int)wd_tp->nb_pending_actions, m_nev);
+        fprintf(out, "#end\n"); fflush(out);
+        _exit(42);
+    }
+    return NULL;
+}
+
+static void do_map(int mt, int nt, int P, int Q, int hang)
 {
     parsec_matrix_block_cyclic_t A, B;
     if( mt < 1 || nt < 1 || mt > MAXT || nt > MAXT || P * Q != world ) { fprintf(out, "map %d %d => bad-op\n", mt, nt); return; }
@@ -186,9 +204,12 @@ static void do_map(int mt, int nt, int P, int Q)
     parsec_taskpool_t *tp = parsec_map_operator_New((parsec_tiled_matrix_t*)&A, (parsec_tiled_matrix_t*)&B, map_op, "C22");
     map_tp_mirror_t *mir = (map_tp_mirror_t*)tp;
     int mirror_ok = (mir->src == (parsec_tiled_matrix_t*)&A && mir->dest == (parsec_tiled_matrix_t*)&B && mir->op == map_op && mir->next_n == 0);
+    pthread_t wd;
+    if( hang ) { snprintf(wd_desc, sizeof wd_desc, "maphang %d %d %d %d", mt, nt, P, Q); wd_tp = tp; wd_armed = 1; pthread_create(&wd, NULL, watchdog, NULL); }
     int rc = parsec_context_add_taskpool(parsec, tp);
     if( rc == PARSEC_SUCCESS ) rc = parsec_context_start(parsec);
     if( rc == PARSEC_SUCCESS ) rc = parsec_context_wait(parsec);
+    if( hang ) { wd_armed = 0; pthread_join(wd, NULL); fprintf(out, "%s => completed\n", wd_desc); }
     int next = mirror_ok ? (int)mir->next_n : -1;
     fprintf(out, "map %d %d %d ", mt, nt, cores);
     int nloc = 0;
@@ -348,6 +369,15 @@ static void do_reduce(int MT)
     log_fini(&A); log_fini(&R);
 }
 
+/* the `operation` handed to reduce_col / reduce_row: counts its invocations */
+static int red_ops;
+static int red_op(struct parsec_execution_stream_s *es, const void *src, void *dst, void *op_data, ...)
+{
+    (void)es; (void)src; (void)dst; (void)op_data;
+    __atomic_fetch_add(&red_ops, 1, __ATOMIC_SEQ_CST);
+    return 0;
+}
+
 /* reduce_col.jdf / reduce_row.jdf through the generated constructors (explicit IA JA M N) */
 static void do_redcolrow(int row, int d, int nt, int M, int N)
 {
@@ -361,13 +391,14 @@ static void do_redcolrow(int row, int d, int nt, int M, int N)
     parsec_datatype_t newtype;
     parsec_type_create_contiguous(NB * NB, parsec_datatype_int_t, &newtype);
     if( row ) {
-        parsec_reduce_row_taskpool_t *t = parsec_reduce_row_new((parsec_tiled_matrix_t*)&S, (parsec_tiled_matrix_t*)&D, NULL, NULL, 0, 0, M, N);
+        parsec_reduce_row_taskpool_t *t = parsec_reduce_row_new((parsec_tiled_matrix_t*)&S, (parsec_tiled_matrix_t*)&D, red_op, NULL, 0, 0, M, N);
         adt = &t->arenas_datatypes[PARSEC_reduce_row_DEFAULT_ADT_IDX]; tp = (parsec_taskpool_t*)t;
     } else {
-        parsec_reduce_col_taskpool_t *t = parsec_reduce_col_new((parsec_tiled_matrix_t*)&S, (parsec_tiled_matrix_t*)&D, NULL, NULL, 0, 0, M, N);
+        parsec_reduce_col_taskpool_t *t = parsec_reduce_col_new((parsec_tiled_matrix_t*)&S, (parsec_tiled_matrix_t*)&D, red_op, NULL, 0, 0, M, N);
         adt = &t->arenas_datatypes[PARSEC_reduce_col_DEFAULT_ADT_IDX]; tp = (parsec_taskpool_t*)t;
     }
     parsec_arena_datatype_set_type(adt, NB * NB * sizeof(int), PARSEC_ARENA_ALIGNMENT_SSE, newtype);
+    red_ops = 0;
     int rc; char *cap = run_captured(tp, &rc);
     int n = 0, bad = 0;
     for(char *p = cap, *e; *p; p = e + 1) {
@@ -383,7 +414,7 @@ static void do_redcolrow(int row, int d, int nt, int M, int N)
         fprintf(out, "tasks="); print_pairs(out, ev, n, 0);
         fprintf(out, " reads="); print_reads(out, &S, 0);
         fprintf(out, " dest="); print_reads(out, &D, 1);
-        fprintf(out, "\n");
+        fprintf(out, " ops=%d\n", red_ops);
     }
     fprintf(out, "#stat redcolrow_cases 1\n#stat redcolrow_tasks %d\n#stat redcolrow_unparsed_lines %d\n", n, bad);
     free(cap);
@@ -425,7 +456,9 @@ int main(int argc, char **argv)
     while( fgets(line, sizeof line, in) ) {
         int a, b, c, d, e;
         if( 5 == sscanf(line, "apply %d %d %d %d %d", &a, &b, &c, &d, &e) ) do_apply(a, b, c, d, e);
-        else if( 4 == sscanf(line, "map %d %d %d %d", &a, &b, &c, &d) ) do_map(a, b, c, d);
+        else if( 4 == sscanf(line, "map %d %d %d %d", &a, &b, &c, &d) ) do_map(a, b, c, d, 0);
+        else if( 4 == sscanf(line, "maphang %d %d %d %d", &a, &b, &c, &d) ) do_map(a, b, c, d, 1);
+        else if( 1 == sscanf(line, "watchdog %d", &a) ) wd_secs = a;
         else if( 1 == sscanf(line, "reduce %d", &a) ) do_reduce(a);
         else if( 4 == sscanf(line, "redcol %d %d %d %d", &a, &b, &c, &d) ) do_redcolrow(0, a, b, c, d);
         else if( 3 == sscanf(line, "redrow %d %d %d", &a, &b, &c) ) do_redcolrow(1, a, b, (1 << a) - 1, c);
